@@ -56,6 +56,17 @@ def run_case(case, rng):
     rep = rng.choice(["subclass", "quicktabular"])
     G.restrict_to_closure(sp, rng)
     sp.init = [(s, p) for s, p in sp.init if p > 0]
+    if not tie_family and rng.random() < 0.2:
+        # some stochastic outcomes written as a uniform distribution over a multiset of results (LRTDP only uses the
+        # functional interface; the probabilities become k-ths so that the multiset is exact)
+        for key, lst in list(sp.P.items()):
+            live = [(t, q) for t, q in lst if q > 0]
+            if len(live) >= 2 and rng.random() < 0.7:
+                counts = [rng.choice([1, 1, 2, 3]) for _ in live]
+                k = sum(counts)
+                sp.P[key] = [(t, c / k) for (t, _), c in zip(live, counts)]
+                sp.kind[key] = "multiset"
+        sp.meta["multiset_outcomes"] = True
     mdp = Bd.build(sp, rep)
     gamma = sp.gamma
     arr = Rf.Arr(sp)
